@@ -605,6 +605,178 @@ func runDropStraggler() (string, interface{}) {
 	}
 }
 
+// subLag: a subscriber whose callback is stuck until its queue (1000 batches) is full and the
+// publisher is blocked in the send; then the callback fails, the subscription must end, the
+// commits queued behind the publisher must finish and Close must return.
+func runSubLag() (string, interface{}) {
+	db, err := badger.Open(vh.SmallOptions("").WithInMemory(true))
+	if err != nil {
+		return "harness.open", err.Error()
+	}
+	hold := make(chan struct{})
+	first := make(chan struct{}, 1)
+	subDone := make(chan error, 1)
+	go func() {
+		subDone <- db.Subscribe(context.Background(), func(*badger.KVList) error {
+			select {
+			case first <- struct{}{}:
+			default:
+			}
+			<-hold
+			return fmt.Errorf("callback failed")
+		}, []pb.Match{{Prefix: []byte("k")}})
+	}()
+	time.Sleep(50 * time.Millisecond)
+	var n atomic.Int64
+	commitsDone := make(chan struct{})
+	const total = 4000
+	go func() {
+		defer close(commitsDone)
+		for i := 0; i < total; i++ {
+			if err := db.Update(func(txn *badger.Txn) error { return txn.Set([]byte(fmt.Sprintf("k%05d", i)), []byte("v")) }); err != nil {
+				return
+			}
+			n.Add(1)
+			time.Sleep(150 * time.Microsecond) // let the publisher goroutine publish every commit on its own
+		}
+	}()
+	// wait until the commits stall (queue full, publisher blocked holding its mutex)
+	last, since := int64(-1), time.Now()
+	deadline := time.Now().Add(hangAfter)
+	for time.Now().Before(deadline) {
+		cur := n.Load()
+		if cur != last {
+			last, since = cur, time.Now()
+		} else if cur >= 1000 && time.Since(since) > 500*time.Millisecond {
+			break
+		}
+		if cur >= total {
+			break
+		}
+		time.Sleep(10 * time.Millisecond)
+	}
+	stalledAt := n.Load()
+	close(hold) // the callback returns an error: Subscribe clears active, drains, deregisters
+	select {
+	case <-subDone:
+	case <-time.After(hangAfter / 2):
+		return "flow:hang Subscribe (callback error with a full subscriber queue)", fmt.Sprintf("Subscribe did not return; commits stalled at %d", stalledAt)
+	}
+	select {
+	case <-commitsDone:
+	case <-time.After(hangAfter / 2):
+		return "flow:hang committer (after a subscription with a full queue ended)", fmt.Sprintf("commits stuck at %d of %d", n.Load(), total)
+	}
+	cl := make(chan error, 1)
+	go func() { cl <- db.Close() }()
+	select {
+	case <-cl:
+	case <-time.After(hangAfter / 2):
+		return "flow:hang Close (after a subscription with a full queue ended)", nil
+	}
+	return "", fmt.Sprintf("commits stalled at %d before the subscription ended", stalledAt)
+}
+
+// stallDrop: sustained back-pressure (one memtable in the flush queue, level 0 stalls at two tables,
+// four committers writing continuously, real compactors) while DropAll / DropPrefix are issued
+// repeatedly, then Close with the writers still running. Flow.tla: DropBlock / CloseBlock taken in
+// states where flusher = "building" and l0 = L0Stall.
+func runStallDrop(seed int64) (string, interface{}, int) {
+	dir, err := os.MkdirTemp("", "flowrun-")
+	if err != nil {
+		vh.Fatalf("%v", err)
+	}
+	defer os.RemoveAll(dir)
+	var nstall atomic.Int64
+	rec := vh.Install(false)
+	rec.OnEvent = func(ev vh.Event) {
+		if ev.Point == "l0.stall" {
+			nstall.Add(1)
+		}
+	}
+	defer rec.Uninstall()
+	o := vh.SmallOptions(dir)
+	o.MemTableSize = 32 << 10
+	o.BaseTableSize = 32 << 10
+	o.BaseLevelSize = 128 << 10
+	o.NumMemtables = 1
+	o.NumLevelZeroTables = 1
+	o.NumLevelZeroTablesStall = 2
+	o.NumCompactors = 2
+	o.ValueThreshold = 2048
+	db, err := badger.Open(o)
+	if err != nil {
+		return "harness.open", err.Error(), 0
+	}
+	stop := make(chan struct{})
+	var wg sync.WaitGroup
+	var ncommit atomic.Int64
+	val := make([]byte, 1500)
+	for g := 0; g < 4; g++ {
+		wg.Add(1)
+		go func(g int) {
+			defer wg.Done()
+			defer func() { recover() }() // commits racing Close are a listed finding, not this scenario's subject
+			for i := 0; ; i++ {
+				select {
+				case <-stop:
+					return
+				default:
+				}
+				err := db.Update(func(txn *badger.Txn) error {
+					return txn.Set([]byte(fmt.Sprintf("k%d-%06d", g, i)), val)
+				})
+				if err == nil {
+					ncommit.Add(1)
+				} else if c := errClass(err); !allowed(c) {
+					return
+				}
+			}
+		}(g)
+	}
+	rng := rand.New(rand.NewSource(seed))
+	for round := 0; round < 5; round++ {
+		// let pressure build up: wait for a fresh level-0 stall (bounded)
+		before := nstall.Load()
+		t0 := time.Now()
+		for nstall.Load() == before && time.Since(t0) < 3*time.Second {
+			time.Sleep(time.Millisecond)
+		}
+		done := make(chan error, 1)
+		name := "DropAll"
+		if rng.Intn(3) == 0 {
+			name = "DropPrefix"
+			go func() { done <- db.DropPrefix([]byte("k1-")) }()
+		} else {
+			go func() { done <- db.DropAll() }()
+		}
+		select {
+		case err := <-done:
+			if err != nil && !allowed(errClass(err)) {
+				return "flow:error " + name, err.Error(), int(nstall.Load())
+			}
+		case <-time.After(hangAfter):
+			return "flow:hang " + name + " (issued while level 0 is stalled and committers keep writing)", map[string]interface{}{"round": round, "commits": ncommit.Load(), "stalls": nstall.Load(), "goroutines": trimDump(dump())}, int(nstall.Load())
+		}
+	}
+	cl := make(chan error, 1)
+	go func() { cl <- db.Close() }()
+	select {
+	case <-cl:
+	case <-time.After(hangAfter):
+		return "flow:hang Close (issued while committers keep writing under back-pressure)", trimDump(dump()), int(nstall.Load())
+	}
+	close(stop)
+	fin := make(chan struct{})
+	go func() { wg.Wait(); close(fin) }()
+	select {
+	case <-fin:
+	case <-time.After(hangAfter / 2):
+		// committers racing Close: listed finding (straggler); not judged here
+	}
+	return "", fmt.Sprintf("commits=%d stalls=%d", ncommit.Load(), nstall.Load()), int(nstall.Load())
+}
+
 // closeDuringDrop: Close issued while DropAll has stopped the flusher (prepareToDrop done).
 func runCloseDuringDrop() (string, interface{}) {
 	dir, err := os.MkdirTemp("", "flowrun-")
@@ -664,6 +836,8 @@ func main() {
 	nshard := flag.Int("nshards", 1, "")
 	straggler := flag.Bool("straggler", false, "run the deterministic straggler schedule")
 	sh := flag.Bool("stragglerhang", false, "run the deterministic straggler schedule in which the channel is not yet closed")
+	sd := flag.Bool("stalldrop", false, "run the sustained back-pressure scenario with repeated drops and Close")
+	sl := flag.Bool("sublag", false, "run the lagging-subscriber schedule")
 	ds := flag.Bool("dropstraggler", false, "run the deterministic DropPrefix-vs-stamped-commit schedule")
 	cdd := flag.Bool("closeduringdrop", false, "run the deterministic Close-during-DropAll schedule")
 	hang := flag.Int("hang", 60, "seconds after which a call counts as not returning")
@@ -678,6 +852,16 @@ func main() {
 	if *sh {
 		sig, det := runStragglerHang()
 		enc.Encode(result{Case: -3, Ok: sig == "", Sig: sig, Detail: det})
+		os.Exit(0)
+	}
+	if *sd {
+		sig, det, st := runStallDrop(*seed)
+		enc.Encode(result{Case: -6, Ok: sig == "", Sig: sig, Detail: det, Stalls: st})
+		os.Exit(0)
+	}
+	if *sl {
+		sig, det := runSubLag()
+		enc.Encode(result{Case: -5, Ok: sig == "", Sig: sig, Detail: det})
 		os.Exit(0)
 	}
 	if *ds {
